@@ -1875,9 +1875,12 @@ where
 
     fn unexpected_start_tag_in_foreign_content(&self, tag: Tag) -> ProcessResult<Handle> {
         self.unexpected(&tag);
-        while !self.current_node_in(|n| {
+        while !(self.current_node_in(|n| {
             *n.ns == ns!(html) || mathml_text_integration_point(n) || svg_html_integration_point(n)
-        }) {
+        }) || self
+            .sink
+            .is_mathml_annotation_xml_integration_point(&self.current_node()))
+        {
             self.pop();
         }
         self.step(self.mode.get(), Token::Tag(tag))
